@@ -1242,7 +1242,8 @@ def struct_orders(root):
             if not f.endswith(".rs"):
                 continue
             text = open(os.path.join(dp, f)).read()
-            for m in re.finditer(r"\bstruct\s+(\w+)\s*(<[^{;]*?>)?\s*(?:where[^{]*)?\{(.*?)\n\}", text, re.S):
+            text = "\n".join(l for l in text.split("\n") if not l.strip().startswith("//"))
+            for m in re.finditer(r"\bstruct\s+(\w+)\s*(<[^{;]*?>)?\s*(?:where[^{]*?)?\{(.*?)\n\}", text, re.S):
                 name, body = m.group(1), m.group(3)
                 fields = []
                 depth = 0
